@@ -114,14 +114,9 @@ theorem runBuild_sim {P : Params} {t : Tree} {o : Opts} {L : List Label} (ord : 
 /-- collection leaves the live labels' records (semantically) and every project file as they were -/
 theorem agree_gc (t : Tree) (pi : Bool) (w : World) : Agree (gcLive t pi w) w (gc t pi w) := by
   unfold gc gcLive
-  split
-  · rename_i ls _
-    refine ⟨rfl, ?_⟩
-    intro l hl
-    rw [sweep_recs_live ls w l hl]
-  · refine ⟨by simp [sweep, (load_sem t w 0).2.1], ?_⟩
-    intro l hl
-    rw [sweep_recs_live _ _ l hl, (load_sem t w l).1]
+  refine ⟨by simp [sweep, (load_sem t w 0).2.1], ?_⟩
+  intro l hl
+  rw [sweep_recs_live _ _ l hl, (load_sem t w l).1]
 
 theorem agree_mono {L L' : List Label} {w w' : World} (h : Agree L w w') (hs : ∀ l ∈ L', l ∈ L) : Agree L' w w' :=
   ⟨h.files, fun l hl => h.recs l (hs l hl)⟩
